@@ -39,7 +39,7 @@ from . import c02_keyderive as KD
 GENERATORS = ["c02_pure", "c02_keys"]
 
 DEPENDS = ["PacketNumber", "Protect", "KeyPhase", "PnGen", "PacketNumberProofs", "ProtectProofs", "KeyPhaseProofs", "Base", "Tok", "C02",
-           "C02Keys", "KeyDerive", "KeyDeriveProofs"]
+           "C02Keys", "KeyDerive", "KeyDeriveProofs", "KeyPhaseSec", "KeyPhaseSecProofs"]
 TRUSTED_BASE = [
     "extraction (ExtrOcamlBasic only; Z kept as the extracted inductive) + coq/extract/driver.ml for running the models",
     "harness/props/c02.py + c02_ref.py (independent RFC 9001/9369 implementation; decides what 'agree' means) and the "
